@@ -31,8 +31,9 @@ func (rs References) GetReferences(table, uuid string) References {
 		if spec.ToTable != table {
 			continue
 		}
-		if _, ok := values[uuid]; ok {
-			refs[spec] = Reference{uuid: values[uuid]}
+		if from, ok := values[uuid]; ok {
+			// hand out a copy, the caller is free to modify what it gets
+			refs[spec] = Reference{uuid: append([]string(nil), from...)}
 		}
 	}
 	return refs
